@@ -209,44 +209,54 @@ def r3(ctx):
         rets = {lf.ret for lf in eng.tabulate(key)}
         ctx.ob(f"accessor {fn}", rets == {want}, f"{fn} returns {[T.show(r)[:200] for r in rets]}; expected {T.show(want)}", site=P.body(key).get("def_span"), sample=T.show(want))
 
-    # pawn helpers, per colour
-    color, occ = ("param", 1, "a1"), ("field", ("param", 2, "a2"), "0")
+    # pawn helpers: the extracted summaries are evaluated for every square, both colours and a set of occupancies that contains, for each
+    # square, the empty board, the full board, the single-step and the double-step square alone and together, and pseudo-random boards
+    from analysis.effects import sample_words
+    POS = g.pos_key
+    pos_names = {d: nme for nme, d in P.enum_variants(POS)}
+    COLOR = "chess_bitboard::color::Color"
+    col_names = {d: nme for nme, d in P.enum_variants(COLOR)}
     W, B = g.color[0], g.color[1]
+
+    def ref(fn, c, white, occ):
+        att = g.bb([x for x in R.pawn_attack_squares(c, white)])
+        if fn == "pawn_attacks_moves":
+            return att
+        if fn == "pawn_attacks":
+            return att & occ
+        qs = R.pawn_quiet_squares(c, white)
+        quiet = 0
+        if qs and not (occ >> g.sq[qs[0]]) & 1:
+            quiet |= 1 << g.sq[qs[0]]
+            if len(qs) > 1 and not (occ >> g.sq[qs[1]]) & 1:
+                quiet |= 1 << g.sq[qs[1]]
+        return quiet if fn == "pawn_quiets" else (quiet | (att & occ))
     for fn in ("pawn_attacks", "pawn_attacks_moves", "pawn_quiets", "pawn_moves"):
         key = "chess_lookup::" + fn
         ctx.used_body(key)
+        body = P.body(key)
         leaves = eng.tabulate(key)
-        if fn in ("pawn_attacks", "pawn_attacks_moves"):
-            # no colour match: the table is indexed by the colour parameter itself
-            att = nest("pawn::PAWN_ATTACKS", ("cast", "usize", ("discr", pos)), ("cast", "usize", ("discr", color)))
-            want = _bb(eng.binop("BitAnd", att, occ)) if fn == "pawn_attacks" else _bb(att)
-            rets = {lf.ret for lf in leaves}
-            ctx.ob(fn, rets == {want}, f"{fn} returns {[T.show(r)[:200] for r in rets]}; expected {T.show(want)}", site=P.body(key).get("def_span"), sample=T.show(want))
-            continue
-        for cname, cd, up in (("White", W, True), ("Black", B, False)):
-            att = nest("pawn::PAWN_ATTACKS", ("cast", "usize", ("discr", pos)), T.I(cd, "usize"))
-            qui = nest("pawn::PAWN_QUIETS", ("cast", "usize", ("discr", pos)), T.I(cd, "usize"))
-            bit = eng.binop("Shl", T.I(1, "u64"), ("cast", "u8", ("discr", pos)))
-            not_last = T.I(~g.bb([(f, 7 if up else 0) for f in range(8)]), "u64")
-            nxt = eng.binop("Shl" if up else "Shr", eng.binop("BitAnd", bit, not_last), T.I(8, "i32"))
-            blocked = eng.binop("Ne", eng.binop("BitAnd", nxt, occ), T.I(0, "u64"))
-            attacks = eng.binop("BitAnd", att, occ)
-            quiets = eng.binop("BitAnd", qui, eng.unop("Not", occ))
-            ls = [lf for lf in leaves if lf.known.get(color) == cname]
-            if fn == "pawn_attacks":
-                want = {(None, _bb(attacks))}
-            elif fn == "pawn_attacks_moves":
-                want = {(None, _bb(att))}
-            elif fn == "pawn_quiets":
-                want = {(1, _bb(T.I(0, "u64"))), (0, _bb(quiets))}
-            else:
-                want = {(1, _bb(attacks)), (0, _bb(eng.binop("BitOr", quiets, attacks)))}
-            got = set()
-            for lf in ls:
-                bl = [v for t, v in lf.cond if t == blocked]
-                got.add((bl[0] if bl else None, lf.ret))
-            ctx.ob(f"{fn}[{cname}]", got == want, f"{fn} for {cname}: {[(b_, T.show(r)[:160]) for b_, r in got]}; expected {[(b_, T.show(r)[:160]) for b_, r in want]} "
-                   f"(first component: one-step square {'up' if up else 'down'} occupied)", site=P.body(key).get("def_span"), sample={"cases": len(got)})
+        prm = [("param", i, body["locals"][i + 1]["n"]) for i in range(body["argc"])]
+        bad, n = [], 0
+        for d, c in g.coord.items():
+            for cd, white in ((W, True), (B, False)):
+                qs = R.pawn_quiet_squares(c, white)
+                occs = [0, (1 << 64) - 1] + [1 << g.sq[q] for q in qs] + ([(1 << g.sq[qs[0]]) | (1 << g.sq[qs[1]])] if len(qs) > 1 else []) + sample_words()[-6:]
+                if fn == "pawn_attacks_moves":
+                    occs = [0]
+                for occ in occs:
+                    env = {prm[0]: ("adt", POS, pos_names[d], ()), ("discr", prm[0]): T.I(d, "isize"), prm[1]: ("adt", COLOR, col_names[cd], ()), ("discr", prm[1]): T.I(cd, "isize")}
+                    if len(prm) > 2:
+                        env[("field", prm[2], "0")] = T.I(occ, "u64")
+                    res = T.eval_table(eng, leaves, env)
+                    n += 1
+                    w = res[3][0] if isinstance(res, tuple) and res and res[0] == "adt" and res[3] else res
+                    got = w[1] if T.is_const(w) else None
+                    want = ref(fn, c, white, occ)
+                    if got != want and len(bad) < 6:
+                        bad.append((f"{g.name(d)},{'White' if white else 'Black'},{occ:#x}", f"{fn}({g.name(d)}, {'White' if white else 'Black'}, occupancy {occ:#x}) = "
+                                    f"{hex(got) if got is not None else T.show(res)[:80]}, the rules give {want:#x}"))
+        ctx.bulk(fn, n, bad, f"{fn} differs from the pawn rules (pushes blocked by any piece, the double step by either square; captures only onto occupied squares)", sample={"evaluations": n})
 
     key = "chess_lookup::distance"
     ctx.used_body(key)
